@@ -1,7 +1,7 @@
 (* Wire format of the runner family: decoding of dialogues and operation sequences, execution on
    the model, encoding of the observations. *)
 From Coq Require Import List ZArith NArith Bool.
-From YS Require Import Base.Sexp Num.F64 Yarn.Ast Yarn.Value Yarn.Eval Markup.LineParser Yarn.Runner.
+From YS Require Import Base.Sexp Num.F64 Yarn.Ast Yarn.Value Yarn.Eval Markup.LineParser Markup.MarkupWire Yarn.Runner.
 Import ListNotations.
 
 Definition dec_value (e : sexp) : option value :=
@@ -192,18 +192,6 @@ Definition enc_value (v : value) : sexp :=
   | VBool b => tagged "bool" [sbool b]
   | VStr s => tagged "str" [SS s]
   end.
-
-Definition enc_mvalue (v : mvalue) : sexp :=
-  match v with
-  | MInt i => tagged "i" [SZ i]
-  | MFloat f => tagged "f" [SZ (to_bits f)]
-  | MStr s => tagged "s" [SS s]
-  | MBool b => tagged "b" [sbool b]
-  end.
-
-Definition enc_attr (a : attribute) : sexp :=
-  SL [SS (aname a); SZ (apos a); SZ (alen a); SZ (asrc a);
-      SL (map (fun kv => SL [SS (fst kv); enc_mvalue (snd kv)]) (sort_alist (aprops a)))].
 
 Definition enc_rline (l : rline) : list sexp :=
   [SS (rtext l); SL (map SS (rtags l)); SL (map enc_attr (rattrs l))].
